@@ -12,7 +12,7 @@ import markergen as mg
 from framework import Ctx, Timeout, with_timeout
 
 OPS = {"==": "MEq", "!=": "MNe", "in": "MIn", "not in": "MNotIn", "<": "MLt", "<=": "MLe", ">": "MGt", ">=": "MGe", "~=": "MCompat", "===": "MArb"}
-VERSION_LIKE = {"python_version", "python_full_version", "platform_release"}
+VERSION_LIKE = {"python_version", "python_full_version", "platform_release", "implementation_version"}
 
 
 def catom(m) -> str:
